@@ -175,6 +175,16 @@ CHECKS = {
               "non-binary partitions are NOT decided."),
         note=TRUST + "; binary-child partitions; statement-set patterns",
         ref="DESIGN.md section 4-C13"),
+    "C08": dict(
+        engine="E2 cfg + E7 idioms + E3",
+        technique="CFG guard facts at hand-out/expansion sites + arg-max fold recognition + sympy equivalence of the b formulas",
+        text=("Static necessary conditions (thin row): evaluate-once guards and marking (SOO, DOO), k-cap (StoSOO); the expansion "
+              "candidate is an arg-max over leaves guarded as evaluated, of reward / b / reward+delta(depth) with the published b "
+              "formulas and recomputation before comparison; sweep thresholds v_max / b_max present, reset per sweep and raised on "
+              "expansion; DOO one expansion per completed sweep; depth cap in the sweep bound. The order of expansions over a run is "
+              "NOT decided."),
+        note=TRUST + "; statement-level patterns for the sweep; pull/receive_reward alternate",
+        ref="DESIGN.md section 4-C08"),
 }
 
 NOT_YET = "checker under construction in this round (see DESIGN.md section 0 for the clause it will decide)"
